@@ -15,7 +15,7 @@ fn verif_witness() {
     // ops: 0..3 insert pool[i]; 4..7 remove pool[i-4]; 8 rebuild from the model
     let nops = 9usize;
     let mut cases = 0usize;
-    for len in 1..=5usize {
+    for len in 1..=(if vw_thorough() { 6usize } else { 5 }) {
         for code in 0..nops.pow(len as u32) {
             let mut c = code;
             let mut idx = HashIndex::new(JoinKeySpec::new("r", vec![0]), 4);
